@@ -6,6 +6,8 @@ import OmplModel.Proofs.PathOpsSpliceLen
 import OmplModel.Proofs.PathOpsRepair
 import OmplModel.Proofs.PathHybrid
 import OmplModel.Proofs.PathOpsSplice2
+import OmplModel.Proofs.PathOpsBSpline
+import OmplModel.Proofs.PathOpsSchedule
 /-!
 # C17 — path post-processing preserves endpoints, validity and never worsens cost
 
@@ -335,6 +337,31 @@ theorem pp_splice_needs_posB_lt_posA :
 example : bgSplice [0, 10, 20, 30] 1 2 15 99 = some [0, 10, 15, 99] := by decide
 example : ppSplice [0, 10, 20, 30] 0 false 2 false 5 17 25 = some [0, 5, 17, 25, 30] := by decide
 
+/-! ## smoothBSpline as a whole routine (Model/PathOpsWhole.lean; lock-step with the real routine) -/
+
+theorem bspline_keeps_first (E : BsEnv σ) (maxSteps : Nat) (path : List σ) :
+    (smoothBSpline E maxSteps path).head? = path.head? := smoothBSpline_head? E maxSteps path
+
+theorem bspline_keeps_last (E : BsEnv σ) (maxSteps : Nat) (path : List σ) :
+    (smoothBSpline E maxSteps path).getLast? = path.getLast? := smoothBSpline_getLast? E maxSteps path
+
+/-- every motion of the result is an input motion, a pair `checkMotion` answered true for, or a half
+(cut at the interpolated midpoint, recursively) of one of those -/
+theorem bspline_only_validated_motions (E : BsEnv σ) (maxSteps : Nat) (path : List σ) :
+    ∀ p ∈ adj (smoothBSpline E maxSteps path), BsDerived E path p := smoothBSpline_only_validated E maxSteps path
+
+/-- termination with the step bound: `k ≤ maxSteps` subdivisions were executed (the result has
+`2^k (n-1) + 1` states); `k = 0` only for `maxSteps = 0` -/
+theorem bspline_terminates (E : BsEnv σ) (maxSteps : Nat) (path : List σ) (h : 3 ≤ path.length) :
+    ∃ k, k ≤ maxSteps ∧ (k = 0 → maxSteps = 0) ∧
+      (smoothBSpline E maxSteps path).length = 2 ^ k * (path.length - 1) + 1 := smoothBSpline_length E maxSteps path h
+
+theorem bspline_short_unchanged (E : BsEnv σ) (maxSteps : Nat) (path : List σ) (h : path.length < 3) :
+    smoothBSpline E maxSteps path = path := smoothBSpline_short E maxSteps path h
+
+example : smoothBSpline ⟨fun _ => true, fun _ _ => true, fun a b : Nat => (a + b) / 2, fun a b => a != b⟩ 1 [0, 40, 0] =
+    [0, 20, 30, 20, 0] := by decide
+
 /-! ## checkAndRepair with a scripted valid-sampler (Model/PathOpsRepair.lean) -/
 
 theorem repair_indices_in_range (E : RepairEnv σ) (path : List σ) : (checkAndRepair E path).isSome = true :=
@@ -466,6 +493,51 @@ theorem simplify_old_true_without_check :
   ⟨fun l => l.length == 3, [0, 1, 2], [0, 1, 2, 3], by decide, by decide, by decide⟩
 
 example : simplifyReturn (fun l : List Nat => l.length == 3) [0, 1, 2] [0, 1, 2, 3] = false := by decide
+
+/-! ## the schedule of simplify / simplifyMax as coded (Model/PathOpsSchedule.lean), by composition
+
+The six routines are ABSTRACT call-indexed functions (each call is "some run" of that routine); `ptc` is
+the stream of the termination condition's answers to `simplify`'s own evaluations.  `Preserves cm cut
+isGoal inp out`: first state kept, last state kept or a goal state, every motion of `out` derived from
+`inp` (input motion | validated | prefix / suffix of a derived motion cut at a `cut` point).  The bridge
+from the concrete routine models to `RoutinesPreserve` is in Proofs/PathOpsScheduleBridge.lean. -/
+
+/-- **first / last-or-goal / validated motions are preserved by the whole schedule**, whenever no
+`checkAndRepair` failed (`valid = true`; a failed repair leaves an unvalidated raw sample, see
+`repair_failed_can_leave_invalid_sample`, and the routine then answers via `check()`) -/
+theorem simplify_schedule_preserves {cm : σ → σ → Bool} {cut : σ → σ → σ → Prop} {isGoal : σ → Prop} {R : Routines σ}
+    (hR : RoutinesPreserve cm cut isGoal R) (ptc : Nat → Bool) (atLeastOnce : Bool) (fuel : Nat) (inp : List σ)
+    (hvalid : (simplify R ptc atLeastOnce fuel inp).valid = true) :
+    Preserves cm cut isGoal inp (simplify R ptc atLeastOnce fuel inp).path :=
+  OmplModel.PathOps.simplify_schedule_preserves hR ptc atLeastOnce fuel inp hvalid
+
+theorem simplifyMax_schedule_preserves {cm : σ → σ → Bool} {cut : σ → σ → σ → Prop} {isGoal : σ → Prop} {R : Routines σ}
+    (hR : RoutinesPreserve cm cut isGoal R) (fuel : Nat) (inp : List σ)
+    (hvalid : (simplifyMax R fuel inp).valid = true) : Preserves cm cut isGoal inp (simplifyMax R fuel inp).path :=
+  OmplModel.PathOps.simplifyMax_schedule_preserves hR fuel inp hvalid
+
+/-- `valid = false` only if some `checkAndRepair` call answered `result = false` -/
+theorem simplify_schedule_invalid_only_after_failed_repair (R : Routines σ) (ptc : Nat → Bool) (atLeastOnce : Bool)
+    (fuel : Nat) (inp : List σ) (hv : (simplify R ptc atLeastOnce fuel inp).valid = false) :
+    ∃ k l, (R.checkAndRepair k l).2.2 = false :=
+  simplify_schedule_invalid_witness R ptc atLeastOnce fuel inp hv
+
+/-- the first state is kept in any case if every routine keeps it (also after a failed repair) -/
+theorem simplify_schedule_keeps_first {R : Routines σ} (hR : RoutinesKeep List.head? R) (ptc : Nat → Bool)
+    (atLeastOnce : Bool) (fuel : Nat) (inp : List σ) : (simplify R ptc atLeastOnce fuel inp).path.head? = inp.head? :=
+  simplify_schedule_head hR ptc atLeastOnce fuel inp
+
+/-- the schedule's return value is `simplifyReturn` (so `simplify_true_implies_check` applies) -/
+theorem simplify_schedule_returns (R : Routines σ) (ptc : Nat → Bool) (atLeastOnce : Bool) (fuel : Nat) (inp : List σ) :
+    (simplify R ptc atLeastOnce fuel inp).ret = simplifyReturn R.check inp (simplify R ptc atLeastOnce fuel inp).path :=
+  simplify_schedule_return R ptc atLeastOnce fuel inp
+
+/-- a termination condition that is true from its K-th evaluation on ends the schedule (no fuel cut-off)
+after at most 2K routine calls -/
+theorem simplify_schedule_terminates (R : Routines σ) (ptc : Nat → Bool) (K : Nat) (hK : ∀ k, K ≤ k → ptc k = true)
+    (fuel : Nat) (hf : K < fuel) (inp : List σ) :
+    (simplify R ptc false fuel inp).outOfFuel = false ∧ (simplify R ptc false fuel inp).calls ≤ 2 * K :=
+  ⟨simplify_schedule_terminates_ptc R ptc K hK false fuel hf inp, simplify_schedule_calls_le_ptc R ptc K hK fuel inp⟩
 
 /-! ## densification: subdivide, interpolate(), interpolate(count) -/
 
